@@ -5,7 +5,7 @@ Writes /tmp/mutout/<id>/<X>/confirm.json. usage: confirm_mutants.py [C03/A ...]"
 import json, os, subprocess, sys, glob, shutil
 
 ROOT = os.environ.get("MUTROOT", "/tmp/mutout")
-WT = "/tmp/wt/confirm"
+WT = os.environ.get("CONFIRM_WT", "/tmp/wt/confirm")
 ENV = dict(os.environ, CARGO_NET_OFFLINE="true")
 
 def sh(cmd, cwd=None, timeout=1800):
@@ -22,6 +22,17 @@ def run_demo(demo_dir, mode):
     flag = "--release" if mode == "release" else ""
     rc, out, err = sh("cargo run --offline -q %s -p yarel-cli --manifest-path %s/Cargo.toml -- demo.yl" % (flag, WT), cwd=demo_dir, timeout=600)
     return rc, out, err
+
+def run_rs_demo(demo_dir, mode):
+    """demo.rs = a Rust integration test against the public API: passes on the unchanged tree, fails with the change"""
+    flag = "--release" if mode == "release" else ""
+    src = open(demo_dir + "/demo.rs").read()
+    feat = "--features verif_hooks" if "verif" in src else ""
+    shutil.copy(demo_dir + "/demo.rs", WT + "/yarel/tests/verif_demo.rs")
+    rc, out, err = sh("cargo test --offline -q %s %s -p yarel --test verif_demo 2>&1 | tail -30" % (flag, feat), cwd=WT, timeout=1800)
+    os.remove(WT + "/yarel/tests/verif_demo.rs")
+    ok = "test result: ok" in out
+    return (0 if ok else 1), out, ""
 
 def norm(s):
     import re
@@ -42,7 +53,12 @@ def main():
         if rc != 0:
             res["apply_err"] = e[-500:]
             json.dump(res, open(outp, "w"), indent=1); print(t, res); continue
-        has_demo = os.path.exists(d + "/demo.yl") and os.path.exists(d + "/expected.txt")
+        rs_demo = os.path.exists(d + "/demo.rs")
+        has_demo = os.path.exists(d + "/demo.yl") and os.path.exists(d + "/expected.txt") and not rs_demo
+        rs_base = {}
+        if rs_demo:
+            for mode in ("release",):
+                rs_base[mode] = run_rs_demo(d, mode)
         base = {}
         if has_demo:
             for mode in ("dev", "release"):
@@ -54,7 +70,7 @@ def main():
         res["builds"] = rc == 0
         if rc != 0:
             res["build_err"] = e[-800:]
-        rc, o, e = sh("cargo nextest run --workspace --no-fail-fast --test-threads 8 --offline 2>&1 | tail -4", cwd=WT)
+        rc, o, e = sh("cargo nextest run --workspace --no-fail-fast --test-threads " + os.environ.get("NT","8") + " --offline 2>&1 | tail -4", cwd=WT)
         res["tests"] = [l for l in o.splitlines() if "Summary" in l or "FAIL" in l]
         res["tests_ok"] = any("546 passed, 1 failed" in l for l in o.splitlines()) and "number_long_decimal" in o
         if has_demo:
@@ -68,6 +84,13 @@ def main():
                 res["demo"][mode] = {"base_matches_expected": matches(b), "mut_matches_expected": matches(mut),
                                      "base_rc": b[0], "mut_rc": mut[0], "mut_out": (mut[1] + mut[2])[-400:]}
             res["demo_ok"] = any(v["base_matches_expected"] and not v["mut_matches_expected"] for v in res["demo"].values())
+        elif rs_demo:
+            res["demo"] = {}
+            for mode in ("release",):
+                mut = run_rs_demo(d, mode)
+                res["demo"][mode] = {"kind": "rust integration test", "base_passes": rs_base[mode][0] == 0,
+                                     "mut_passes": mut[0] == 0, "mut_out": mut[1][-600:]}
+            res["demo_ok"] = any(v["base_passes"] and not v["mut_passes"] for v in res["demo"].values())
         else:
             res["demo_ok"] = None
         sh("git reset -q --hard && git clean -fdq -e target -e Cargo.lock", cwd=WT)
